@@ -628,6 +628,8 @@ def _buffered_readuntil(
             offset = buflen + 1 - seplen
             if offset > limit:
                 msg = "Separator is not found, and chunk exceed the limit"
-                raise LimitOverrunError(msg, buffer, offset, separator)
+                # Only the received part of the buffer must be used to compute the remainder.
+                with memoryview(buffer) as buffer_view:
+                    raise LimitOverrunError(msg, buffer_view[:buflen], offset, separator)
 
         buflen += yield buflen
